@@ -119,6 +119,8 @@ def _run_fuse(g, cls, mods, acc):
     bx = box(mods, acc.tier, m)
     P, part = g.get('parts', 1), g.get('part', 0)
     allrows = [(a,) + r for i, a in enumerate(bx) if i % P == part for r in itertools.product(bx, repeat=m - 1)]
+    if not allrows:      # more shards than elements of the charge box: nothing in this shard
+        return
     rows = np.array(allrows, dtype=np.int64).reshape(len(allrows), m, nsym)
     nz = int(np.count_nonzero(np.any(rows.reshape(len(rows), -1) != 0, axis=1))) if nsym else 0
     first = True
